@@ -95,7 +95,8 @@ type respClient struct {
 	AnswerAfter []byte
 	// QueueBefore > 0: after its request the client queues that many bytes of a next message (not sent) before it
 	// reads the response.
-	QueueBefore int
+	QueueBefore  int
+	QueueBeforeN int // that many further packages of the same size
 	// MaxErrs: the drain gives up after this many errors in a row (default 4).
 	MaxErrs int
 	// Logical: the exchange runs on a logical channel (set up with SETUP / PROTACK) instead of channel 0.
@@ -326,7 +327,10 @@ func runResp(cfg simrt.Config, d respDelivery, c respClient) *respResult {
 			return
 		}
 		if c.QueueBefore > 0 {
-			_ = ch.QueuePackage(ctx, &tds.LanguagePackage{Cmd: strings.Repeat("b", c.QueueBefore)})
+			// (several packages: new packets are opened again and again while the reader works on the response)
+			for k := 0; k <= c.QueueBeforeN; k++ {
+				_ = ch.QueuePackage(ctx, &tds.LanguagePackage{Cmd: strings.Repeat("b", c.QueueBefore)})
+			}
 		}
 		if len(c.PollAt) > 0 {
 			for _, at := range c.PollAt {
